@@ -13,6 +13,12 @@ class Model:
         self.code = comp["code"]
         self.pb = {(f, l): list(ss) for f, l, ss in comp["pb"]}
         self.li = {i: (f, l) for i, f, l in comp["li"]}
+        # the sites OF a line are the sites whose own location is that line (site -> location table);
+        # location -> sites is what the VM patches; if the two tables disagree the model follows the
+        # sites' own locations, so a VM that stops at another line's site is flagged
+        self.sites_of = {}
+        for i, loc in self.li.items():
+            self.sites_of.setdefault(loc, []).append(i)
         self.path = comp["path"]
         self.terminates = comp["terminates"]
         self.avail = set(self.pb)
@@ -34,7 +40,7 @@ class Model:
     def enabled_sites(self):
         s = set()
         for loc in self.en:
-            s.update(self.pb.get(loc, []))
+            s.update(self.sites_of.get(loc, []))
         return s
 
     def is_stop(self, ip, ensites):
